@@ -174,6 +174,7 @@ func (s *Script) prepCompile() (
 	for name := range s.variables {
 		names = append(names, name)
 	}
+	names = verifOrder(names)
 
 	symbolTable = NewSymbolTable()
 	for idx, fn := range builtinFuncs {
